@@ -1507,7 +1507,63 @@ impl Gen {
         }
     }
 
+    /// TEXT-driven JSON-shaped inputs (both a Noulith literal and JSON) with repeated keys at depth 0-3:
+    /// read by `eval` and by `json_decode`, each against the model (last occurrence wins in both)
+    fn dup_text(&mut self, depth: u32) -> String {
+        let leaf = |rng: &mut Rng| -> String {
+            match rng.below(6) {
+                0 => "null".into(),
+                1 => format!("{}", rng.range(-50, 50)),
+                2 => format!("{}", rng.next() as i64),
+                3 => format!("{}.5", rng.range(-9, 9)),
+                _ => format!("\"{}\"", (0..rng.below(4)).map(|_| *rng.pick(&['a', 'b', 'k', ' ', 'é', '1', '_'])).collect::<String>()),
+            }
+        };
+        if depth == 0 || self.rng.chance(1, 4) {
+            return leaf(&mut self.rng);
+        }
+        if self.rng.chance(1, 3) {
+            let n = self.rng.below(4);
+            let items: Vec<String> = (0..n).map(|_| self.dup_text(depth - 1)).collect();
+            return format!("[{}]", items.join(", "));
+        }
+        // a dict whose keys come from a tiny pool: repeats are the rule
+        let pool = ["a", "b", "", "k k", "é", "a "];
+        let n = 1 + self.rng.below(6);
+        let mut members = vec![];
+        for _ in 0..n {
+            let width = (2 + self.rng.below(5) as usize).min(pool.len());
+            let k = *self.rng.pick(&pool[..width]);
+            let v = self.dup_text(depth - 1);
+            members.push(format!("\"{}\": {}", k, v));
+        }
+        format!("{{{}}}", members.join(", "))
+    }
+
+    fn gen_dup_keys(&mut self) -> Vec<Case> {
+        let d = 1 + self.rng.below(3) as u32;
+        let mut t = self.dup_text(d);
+        if !t.contains('{') {
+            t = format!("{{\"a\": {}, \"b\": 0, \"a\": {}}}", t, self.dup_text(1));
+        }
+        let mut e = vec![];
+        parse_entries(&t, &mut e);
+        let tbl = table(e);
+        vec![
+            case("eval(text with repeated keys)", "eval($1)".into(), vec![Bind::Str(t.clone())], Render::Canon,
+                 format!("json_lit {} {}", hx(t.as_bytes()), tbl), true),
+            case("json_decode(text with repeated keys)", "json_decode($1)".into(), vec![Bind::Str(t.clone())], Render::Canon,
+                 format!("json_lit {} {}", hx(t.as_bytes()), tbl), true),
+        ]
+    }
+
     fn gen_json(&mut self, rn: &mut Runner) -> Case {
+        if self.rng.chance(1, 4) {
+            let mut cs = self.gen_dup_keys();
+            let first = cs.remove(0);
+            self.extra.extend(cs);
+            return first;
+        }
         match self.rng.below(10) {
             0 | 1 => {
                 let shaped = self.rng.chance(2, 3);
@@ -1851,6 +1907,20 @@ fn main() {
             }
         }
     }
+    for t in ["{\"a\": 1, \"a\": 2}", "{\"a\": 1, \"b\": {\"k\": [1], \"k\": -2}, \"a\": \"x\"}", "[{\"\": 1, \"\": 1.5, \"\": null}]",
+              "{\"a\": {\"a\": {\"a\": 1, \"a\": [2, {\"b\": 3, \"b\": 4}]}, \"a\": 5}}", "{\"a\": 1, \"b\": 2, \"a\": 3, \"b\": 4, \"a\": 5}"] {
+        for (key, src) in [("eval(text with repeated keys)", "eval($1)"), ("json_decode(text with repeated keys)", "json_decode($1)")] {
+            let mut e = vec![];
+            parse_entries(t, &mut e);
+            pending.push(case(key, src.into(), vec![Bind::Str(t.to_string())], Render::Canon,
+                              format!("json_lit {} {}", hx(t.as_bytes()), table(e)), true));
+        }
+    }
+    // `{...defaults, "k": v}`: a written key overrides a splatted one, a later splat overrides an earlier key
+    pending.push(case("dict literal with splat", "(\\ -> (qd := {\"k\": 1, \"j\": 2}; {...qd, \"k\": 3}))()".into(), vec![], Render::Canon,
+                      "echo ok {s:6a:2,s:6b:3}".into(), true));
+    pending.push(case("dict literal with splat", "(\\ -> (qd := {\"k\": 1, \"j\": 2}; {\"k\": 3, ...qd}))()".into(), vec![], Render::Canon,
+                      "echo ok {s:6a:2,s:6b:1}".into(), true));
     pending.push(case("decompress(garbage)", "decompress($1)".into(), vec![Bind::Bytes(vec![1, 2, 3])], Render::Canon, "echo throw".into(), true));
     pending.push(case("decompress(garbage)", "decompress($1)".into(), vec![Bind::Bytes(vec![])], Render::Canon, "echo throw".into(), true));
 
